@@ -69,7 +69,11 @@ impl Prop for C19 {
     out
   }
 
+  /// Miri stage: the kernels this property's constructs dispatch to, driven directly (crate /verif/miri) under the undefined-behaviour interpreter
+  fn post_stage(&self, tier: Tier, seed: u64, _self_exe: &str) -> Vec<(Case, Outcome)> { crate::fw::miri_stage("C19", tier, seed, if tier == Tier::Quick { 3 } else { 2 }) }
+
   fn run(&self, case: &Case, _flavour: &str) -> Outcome {
+    if case.cell.starts_with("stage=miri") { return crate::fw::miri_run_one(case); }
     let src = case.input["src"].as_str().unwrap();
     let mutates = match case.input["mutates"].as_bool() {
       Some(b) => b,
